@@ -19,7 +19,7 @@ LEVEL = "exploration"
 RULE = ("E1 over edit operators: for each base file (valid BF3 files with 0..3 components incl. an encrypted configuration and payloads ending "
         "in 0x00) every single structured edit at every applicable entry position and every combination of <= d edits (d=2 quick, 3 thorough) "
         "is applied to the reference AST (addresses, stored/declared lengths with and without the bytes present, tag list incl. duplicates and "
-        "over/under-long tag lengths, description/entry/directory sizes, sentinel, entry order, MAC index, swapped MACs, trailing and missing "
+        "over/under-long tag lengths, description/entry/directory sizes, sentinel, entry order, MAC index, swapped MACs, each MAC wrong in exactly one byte at every byte position, trailing and missing "
         "bytes, signature), MACs recomputed, serialised, and read by the real reader. Oracle: accept <=> independent validator accepts, and "
         "equal content on accept. Distinct = distinct resulting binaries; non-trivial = the edit changed the binary.")
 ASSUMPTIONS = [
@@ -51,21 +51,20 @@ def base_files(ctx):
     return files[:3] if ctx.quick else files
 
 
-# ---- edit operators: fn(ast, i, key, info) ; i = entry index or None -------------------
-
-def _shift_after(ast, i, delta):
-    for e in ast["entries"][i + 1:]:
-        e["adr"] += delta
-
+# ---- edit operators: fn(ast, i, key, info) ; i = entry index or -1 --------------------
+# Addresses are DERIVED at serialisation time from the true byte layout (so that an edit which grows an entry or a payload
+# keeps every other field consistent and only the rule under test is broken); an operator that wants a wrong address says
+# so explicitly through adr_off / adr_rel / payload_ref.
 
 def op_adr(delta):
     def f(ast, i, key, info):
-        ast["entries"][i]["adr"] += delta
+        e = ast["entries"][i]
+        e["adr_off"] = e.get("adr_off", 0) + delta
     return f
 
 
 def op_adr_rel(ast, i, key, info):
-    ast["entries"][i]["adr"] -= info["body_start"]
+    ast["entries"][i]["adr_rel"] = True
 
 
 def op_stored(delta):
@@ -74,20 +73,24 @@ def op_stored(delta):
     return f
 
 
+def _is_cipher(e):
+    return any(t == 0xC2 and v == b"\x02" for t, _, v in e["tags"])
+
+
 def op_stored_present(delta):
     def f(ast, i, key, info):
         e = ast["entries"][i]
-        if any(t == 0xC2 and v == b"\x02" for t, _, v in e["tags"]):
+        pi = e.get("payload_ref", i)
+        if _is_cipher(e):
             raise ValueError("not applied to ciphertext payloads")
-        if delta < 0 and e["declared"] >= e["stored"]:
+        if delta < 0 and (e["declared"] >= e["stored"] or len(ast["payloads"][pi]) < 2):
             raise ValueError("would make declared > stored")
         if delta > 0:
-            ast["payloads"][i] += b"\x5a"
+            ast["payloads"][pi] += b"\x5a"
         else:
-            ast["payloads"][i] = ast["payloads"][i][:-1]
+            ast["payloads"][pi] = ast["payloads"][pi][:-1]
         e["stored"] += delta
-        e["pmac"] = A.cbc_mac(key, ast["payloads"][i]) if ast["payloads"][i] else e["pmac"]
-        _shift_after(ast, i, delta)
+        e["pmac"] = A.cbc_mac(key, ast["payloads"][pi])
     return f
 
 
@@ -109,9 +112,25 @@ def op_dup_tag_other_value(ast, i, key, info):
     e["tags"] = e["tags"] + [(t, 1, b"\x77")]
 
 
+def op_dup_empty_first(ast, i, key, info):
+    # a new tag id with an EMPTY value, repeated later with a value
+    e = ast["entries"][i]
+    e["tags"] = [(0x6A, 0, b"")] + e["tags"] + [(0x6A, 2, b"\x01\x02")]
+
+
+def op_dup_zero_value(ast, i, key, info):
+    e = ast["entries"][i]
+    e["tags"] = e["tags"] + [(0x6B, 1, b"\x00"), (0x6B, 1, b"\x00")]
+
+
 def op_add_tag(ast, i, key, info):
     e = ast["entries"][i]
     e["tags"] = e["tags"] + [(0x7E, 2, b"\x01\x02")]
+
+
+def op_add_empty_tag(ast, i, key, info):
+    e = ast["entries"][i]
+    e["tags"] = e["tags"] + [(0x7D, 0, b"")]
 
 
 def op_taglen(delta):
@@ -125,15 +144,13 @@ def op_taglen(delta):
 def op_desclen(delta):
     def f(ast, i, key, info):
         e = ast["entries"][i]
-        tl = sum(2 + len(v) for _, _, v in e["tags"])
-        e["desc_len"] = tl + delta
+        e["desc_len_delta"] = delta
     return f
 
 
 def op_lenbyte(delta):
     def f(ast, i, key, info):
-        e = ast["entries"][i]
-        e["len_byte"] = len(L.entry_body(e)) + 16 + len(e.get("post", b"")) + delta
+        ast["entries"][i]["len_byte_delta"] = delta
     return f
 
 
@@ -147,48 +164,67 @@ def op_post(ast, i, key, info):
 
 def op_macindex(fn):
     def f(ast, i, key, info):
-        ast["entries"][i]["mac_index"] = fn(i)
+        ast["entries"][i]["mac_index_fn"] = fn
     return f
 
 
 def op_pmac_other(ast, i, key, info):
-    j = (i + 1) % len(ast["entries"])
-    ast["entries"][i]["pmac"] = A.cbc_mac(key, ast["payloads"][j] + b"\x01")
+    e = ast["entries"][i]
+    e["pmac"] = A.cbc_mac(key, ast["payloads"][e.get("payload_ref", i)] + b"\x01")
 
 
 def op_pmac_iv(ast, i, key, info):
-    ast["entries"][i]["pmac"] = A.cbc_mac(key, ast["payloads"][i], (1).to_bytes(16, "big"))
+    e = ast["entries"][i]
+    e["pmac"] = A.cbc_mac(key, ast["payloads"][e.get("payload_ref", i)], (1).to_bytes(16, "big"))
+
+
+def op_pmac_flip(k):
+    def f(ast, i, key, info):
+        e = ast["entries"][i]
+        m = bytearray(e["pmac"])
+        m[k] ^= 1 << (k % 8)
+        e["pmac"] = bytes(m)
+    return f
+
+
+def op_emac_flip(k):
+    def f(ast, i, key, info):
+        ast["entries"][i]["emac_xor"] = (k, 1 << (k % 8))
+    return f
 
 
 def op_swap(mode):
-    # swap entries i and i+1; mode: 'full' = consistent new order (valid), 'dir-only' = directory order only
+    # swap entries i and i+1.  'full': payloads swapped too (a valid file in the other order);
+    # 'dir-only-*': directory order only, each entry still points at its own payload
     def f(ast, i, key, info):
         es = ast["entries"]
         a, b = es[i], es[i + 1]
         if mode == "full":
-            ast["payloads"][i], ast["payloads"][i + 1] = ast["payloads"][i + 1], ast["payloads"][i]
-            b["adr"], a["adr"] = a["adr"], a["adr"] + b["stored"]
+            pa, pb = a.get("payload_ref", i), b.get("payload_ref", i + 1)
+            ast["payloads"][pa], ast["payloads"][pb] = ast["payloads"][pb], ast["payloads"][pa]
             es[i], es[i + 1] = b, a
-            b["mac_index"], a["mac_index"] = i + 1, i + 2
-        elif mode == "dir-only-newmac":
+            a["payload_ref"], b["payload_ref"] = pb, pa
+        else:
+            a.setdefault("payload_ref", i)
+            b.setdefault("payload_ref", i + 1)
             es[i], es[i + 1] = b, a
-            b["mac_index"], a["mac_index"] = i + 1, i + 2
-        else:  # old macs kept
-            es[i], es[i + 1] = b, a
+            if mode == "dir-only-oldmac":
+                a["mac_index_fn"] = lambda pos, orig=i: orig
+                b["mac_index_fn"] = lambda pos, orig=i + 1: orig
+                a["mac_index_is_position_based"] = b["mac_index_is_position_based"] = False
     return f
 
 
 def g_dirsize(delta):
     def f(ast, i, key, info):
-        ast["dir_size"] = info["dir_len"] + delta
+        ast["dir_size_delta"] = delta
     return f
 
 
 def g_dirsize_comp(ast, i, key, info):
-    ast["dir_size"] = info["dir_len"] + 1
-    ast["dir_extra"] = b"\x00"
+    ast["dir_size_delta"] = 1
     for e in ast["entries"]:
-        e["adr"] += 1
+        e["adr_off"] = e.get("adr_off", 0) + 1
 
 
 def g_sentinel(val):
@@ -199,8 +235,6 @@ def g_sentinel(val):
 
 def g_dir_extra(ast, i, key, info):
     ast["dir_extra"] = b"\x00"
-    for e in ast["entries"]:
-        e["adr"] += 1
 
 
 def g_trailer(val):
@@ -226,11 +260,12 @@ ENTRY_OPS = [
     ("declared=stored+1", op_declared(lambda e: e["stored"] + 1), None),
     ("declared=1", op_declared(lambda e: 1), None), ("declared=stored", op_declared(lambda e: e["stored"]), None),
     ("dup-tag", op_dup_tag, "tags"), ("dup-tag-other-value", op_dup_tag_other_value, "tags"), ("add-tag", op_add_tag, None),
+    ("dup-tag-empty-first", op_dup_empty_first, "room"), ("dup-tag-zero-value", op_dup_zero_value, "room"), ("add-empty-tag", op_add_empty_tag, None),
     ("taglen+1", op_taglen(1), "tags"), ("taglen-1", op_taglen(-1), "tagval"),
     ("desclen+1", op_desclen(1), None), ("desclen-1", op_desclen(-1), "tags"),
     ("lenbyte+1", op_lenbyte(1), None), ("lenbyte-1", op_lenbyte(-1), None),
     ("extra-before-mac", op_extra, None), ("extra-after-mac", op_post, None),
-    ("macindex-0based", op_macindex(lambda i: i), None), ("macindex+1", op_macindex(lambda i: i + 2), None),
+    ("macindex-0based", op_macindex(lambda pos: pos), None), ("macindex+1", op_macindex(lambda pos: pos + 2), None),
     ("pmac-other", op_pmac_other, None), ("pmac-iv1", op_pmac_iv, None),
     ("swap-full", op_swap("full"), "next"), ("swap-dir-newmac", op_swap("dir-only-newmac"), "next"),
     ("swap-dir-oldmac", op_swap("dir-only-oldmac"), "next"),
@@ -241,7 +276,10 @@ GLOBAL_OPS = [
     ("trailer-00", g_trailer(b"\x00")), ("trailer-16", g_trailer(bytes(16))), ("drop-last-byte", g_drop_last_byte),
     ("sig-bit", g_sig(b"BF3\0\1")), ("sig-bec2", g_sig(b"BEC2\0")),
 ]
+assert L.BF3_SIG == b"BF3\0\0"
+MAC_OPS = [("pmac-flip%d" % k, op_pmac_flip(k)) for k in range(16)] + [("emac-flip%d" % k, op_emac_flip(k)) for k in range(16)]
 OPS = {n: f for n, f, _ in ENTRY_OPS}
+OPS.update(dict(MAC_OPS))
 OPS.update({n: f for n, f in GLOBAL_OPS})
 
 
@@ -258,6 +296,8 @@ def applicable(comps):
             if cond == "tagval" and not (c["tags"] and len(c["tags"][-1][1]) > 0):
                 continue
             if cond == "next" and i + 1 >= len(comps):
+                continue
+            if cond == "room" and sum(2 + len(v) for _, v in c["tags"]) > 190:
                 continue
             out.append((name, i))
     for name, _ in GLOBAL_OPS:
@@ -279,20 +319,48 @@ def cases(ctx):
                 pool = ops
             for combo in combinations(range(len(pool)), k):
                 yield ("edit", fi, tuple(pool[j] for j in combo))
+        # a MAC that is wrong in exactly one byte, every byte position of both MACs of every entry (singles only)
+        for i in range(len(comps)):
+            for name, _ in MAC_OPS:
+                yield ("edit", fi, ((name, i),))
 
 
-def emit_with_post(ast, key):
-    # like L.emit but honouring 'post' bytes (after the entry MAC, inside the entry)
+def emit_with_post(ast, key, header_len=5):
+    """Serialise an edited AST.  Sizes, description lengths and ADDRESSES are derived from the true byte layout unless an
+    operator overrode them (len_byte_delta, desc_len_delta, dir_size_delta, adr_off, adr_rel, payload_ref, mac_index_fn)."""
+    ents = ast["entries"]
+
+    def body_of(e, adr):
+        tl = b"".join(bytes([t & 0xFF, ln & 0xFF]) + v for t, ln, v in e["tags"])
+        dl = len(tl) + e.get("desc_len_delta", 0)
+        return ((adr & 0xFFFFFFFF).to_bytes(4, "big") + (e["stored"] & 0xFFFFFFFF).to_bytes(4, "big")
+                + (e["declared"] & 0xFFFFFFFF).to_bytes(4, "big") + e["pmac"] + bytes([dl & 0xFF]) + tl + e.get("extra", b""))
+    sizes = [1 + len(body_of(e, 0)) + 16 + len(e.get("post", b"")) for e in ents]
+    dir_len = sum(sizes) + len(ast["sentinel"]) + len(ast["dir_extra"])
+    base = header_len + 4 + dir_len
+    starts = []
+    pos = base
+    for pl in ast["payloads"]:
+        starts.append(pos)
+        pos += len(pl)
     d = b""
-    for e in ast["entries"]:
-        body = L.entry_body(e)
-        mac = e["emac"] if e["emac"] is not None else L.entry_mac(body, key, e["mac_index"])
+    for idx, e in enumerate(ents):
+        adr = starts[e.get("payload_ref", idx)] + e.get("adr_off", 0)
+        if e.get("adr_rel"):
+            adr -= base
+        body = body_of(e, adr)
+        mi = e["mac_index_fn"](idx) if "mac_index_fn" in e else idx + 1
+        mac = L.entry_mac(body, key, mi)
+        if "emac_xor" in e:
+            mm = bytearray(mac)
+            mm[e["emac_xor"][0]] ^= e["emac_xor"][1]
+            mac = bytes(mm)
         full = body + mac + e.get("post", b"")
-        lb = e["len_byte"] if e["len_byte"] is not None else len(full)
+        lb = len(full) + e.get("len_byte_delta", 0)
         d += bytes([lb & 0xFF]) + full
     d += ast["sentinel"] + ast["dir_extra"]
-    size = ast["dir_size"] if ast["dir_size"] is not None else len(d)
-    out = size.to_bytes(4, "big") + d + b"".join(ast["payloads"]) + ast["trailer"]
+    size = len(d) + ast.get("dir_size_delta", 0)
+    out = (size & 0xFFFFFFFF).to_bytes(4, "big") + d + b"".join(ast["payloads"]) + ast["trailer"]
     if ast.get("drop_last"):
         out = out[:-1]
     return out
@@ -303,9 +371,8 @@ def run_case(ctx, case):
     key, comps = base_files(ctx)[fi]
     ast = L.build(comps, 5, key)
     base = L.BF3_SIG + L.emit(ast, key)
-    info = {"dir_len": int.from_bytes(base[5:9], "big")}
-    info["body_start"] = 5 + 4 + info["dir_len"]
     ast = copy.deepcopy(ast)
+    info = {}
     for name, i in edits:
         try:
             OPS[name](ast, i, key, info)
